@@ -276,6 +276,7 @@ def make(crates=("chia-protocol",), limit=None, hw=True, part=None, parts=1, out
         stats["covered"] += emitted
         if handwritten:
             L("//@include contracts/handwritten/_utils.part")
+            L("//@include contracts/handwritten/_string.part")
         for name in handwritten:
             st = structs[name]
             if not st.get("tuple"):
